@@ -174,8 +174,8 @@ def oracle_nodes(rc):
     if len(lines) != len(rc.tap.records):
         raise Violation("lost" if len(lines) < len(rc.tap.records) else "duplicated",
                         "%d lines in the node files, %d messages emitted" % (len(lines), len(rc.tap.records)))
-    O.account(lines, rc.model, lenient=True)
-    O.check_forest(lines, rc.model, order_free=False, lenient=True, fields=False)
+    O.account(lines, rc.model, lenient=True, ends=False)
+    O.check_forest(lines, rc.model, order_free=False, lenient=True, fields=False, status=False, require_complete=False)
     return (tuple(order), rc.cfg["shuffle"])
 
 
@@ -310,7 +310,7 @@ def run_race(seed, dec, cfg):
                 raise Violation("remote_misplaced", "message logged by f is at %r" % (
                     [(m["task_uuid"], m["task_level"]) for m in inside],))
             from eliot.parse import Parser
-            tasks = list(Parser.parse_stream(msgs))
+            tasks = [t for t in Parser.parse_stream(msgs) if not O._is_library_extra(t.root())]
             if len(tasks) != 1 or not tasks[0].is_complete():
                 raise Violation("parse", "merged log does not parse into one complete task")
         # overlap probe: did two racers' calls overlap in time?
